@@ -58,7 +58,9 @@ class TxnCoordinator:
             self.txns[txid] = st
         self._settle(st)
         if st.state == "Ongoing":
-            # fencing: abort what the previous incarnation left open
+            # fencing: bump the epoch, abort what the previous incarnation left open with markers
+            # carrying the bumped epoch (so partition leaders reject the old incarnation afterwards)
+            st.epoch += 1
             self._end(txid, st, False, fenced=True)
             st.state = "Empty"
         st.epoch += 1
